@@ -1,6 +1,7 @@
 package comet
 
 import (
+	"errors"
 	"fmt"
 	"sync"
 	"sync/atomic"
@@ -60,7 +61,7 @@ func newMemtable(vecIdx VectorIndex, txtIdx TextIndex, metaIdx MetadataIndex, si
 //   - error: Error if add fails or memtable is frozen
 func (m *memtable) add(vector []float32, text string, metadata map[string]interface{}) (uint32, error) {
 	if m.frozen.Load() {
-		return 0, fmt.Errorf("memtable is frozen")
+		return 0, errMemtableFrozen
 	}
 
 	m.mu.Lock()
@@ -92,7 +93,7 @@ func (m *memtable) add(vector []float32, text string, metadata map[string]interf
 //   - error: Error if add fails or memtable is frozen
 func (m *memtable) addWithID(id uint32, vector []float32, text string, metadata map[string]interface{}) error {
 	if m.frozen.Load() {
-		return fmt.Errorf("memtable is frozen")
+		return errMemtableFrozen
 	}
 
 	m.mu.Lock()
@@ -239,6 +240,10 @@ func (m *memtable) flush() (HybridSearchIndex, error) {
 // memtableQueue manages a queue of memtables for write ordering.
 //
 // Thread-safety: All methods are safe for concurrent use.
+// errMemtableFrozen is returned by memtable.add / addWithID when the memtable was
+// frozen (rotated away) before the write reached it.
+var errMemtableFrozen = errors.New("memtable is frozen")
+
 type memtableQueue struct {
 	mu sync.RWMutex
 
@@ -283,7 +288,13 @@ func (mq *memtableQueue) add(vector []float32, text string, metadata map[string]
 	mutable := mq.mutable
 	mq.mu.Unlock()
 
-	return mutable.add(vector, text, metadata)
+	id, err := mutable.add(vector, text, metadata)
+	if err == errMemtableFrozen {
+		// A concurrent rotation froze the memtable between picking it and writing
+		// to it: pick the new writable memtable and try again
+		return mq.add(vector, text, metadata)
+	}
+	return id, err
 }
 
 // addWithID adds a document with a specific ID to the active memtable.
@@ -298,7 +309,13 @@ func (mq *memtableQueue) addWithID(id uint32, vector []float32, text string, met
 	mutable := mq.mutable
 	mq.mu.Unlock()
 
-	return mutable.addWithID(id, vector, text, metadata)
+	err := mutable.addWithID(id, vector, text, metadata)
+	if err == errMemtableFrozen {
+		// A concurrent rotation froze the memtable between picking it and writing
+		// to it: pick the new writable memtable and try again
+		return mq.addWithID(id, vector, text, metadata)
+	}
+	return err
 }
 
 // Rotate creates a new mutable memtable and freezes the old one.
